@@ -176,8 +176,10 @@ pub async fn start_node(id: u8, dc: &str, store: ModelStore, members: &[ClusterM
         datacake_rpc::verif::alias(addr, listen);
     }
     let cfg = ConnectionConfig::new(listen, addr, Vec::<String>::new());
-    let node = DatacakeNodeBuilder::<DCAwareSelector>::new(id, cfg)
-        .with_data_center(dc)
+    // a node whose data centre is the default name is built without configuring one
+    let builder = DatacakeNodeBuilder::<DCAwareSelector>::new(id, cfg);
+    let builder = if dc == datacake_node::DEFAULT_DATA_CENTER { builder } else { builder.with_data_center(dc) };
+    let node = builder
         .connect()
         .await
         .expect("connect node");
